@@ -30,6 +30,7 @@ def dispatch (op : String) (args : List String) (impl : String) : Verdict :=
   | "fragdec" => opFragDec args impl
   | "fragob" => opFragOb args impl
   | "fragenc" => opFragEnc args impl
+  | "faults" => opFaults args impl
   | _ => bad s!"unknown op {op}"
 
 /-- one input line `op arg ... | impl output` → one verdict line
